@@ -40,14 +40,11 @@ def run(tier):
         pairs, res = _semctx.enumerate_programs(scratch.sub('sem'), 3 if tier == 'thorough' else 2)
         out.add('states', res.distinct)
         out.add('transitions', res.generated)
-        sem = []
-        for ctx, st in pairs:
-            t = _semctx.render(ctx, st)
-            if t is not None:
-                sem.append(t)
-        sem = sorted(set(sem))
-        if tier == 'quick' and len(sem) > 6000:
-            sem = rng.sample(sem, 6000)
+        shallow = sorted({t for t in (_semctx.render(c, st) for c, st in pairs if len(c) <= 1) if t is not None})
+        sem = sorted({t for t in (_semctx.render(c, st) for c, st in pairs) if t is not None} - set(shallow))
+        if tier == 'quick' and len(sem) > 5000:
+            sem = rng.sample(sem, 5000)            # every (context, statement) pair of depth <= 1 is always kept
+        sem = shallow + sem
         progs = _rel.programs(out, tier, PROP, versions, 1500 if tier == 'thorough' else 150, rng, literals=True)
         traces = []
         accepted = 0
